@@ -55,8 +55,8 @@ Print Assumptions C16_negative_delay_possible.
    success, when that connection is lost the retry timer is exactly initialDelay, and a failure of that retry
    waits min(initialDelay*factor, maxDelay) with jitter -- not the delay reached before the success *)
 Theorem C16_backoff_restarts : forall evs z,
-  permitted init_state (evs ++ [AttemptOk]) ->
-  let s := fst (run init_state (evs ++ [AttemptOk])) in
+  permitted init_state (evs ++ [AttemptOk []]) ->
+  let s := fst (run init_state (evs ++ [AttemptOk []])) in
   active s = true ->
   enabled s Lost = true /\
   let r := run s [Lost; TimerExpired; AttemptFail z] in
@@ -72,7 +72,7 @@ Theorem C16_keeps_retrying : forall evs,
   permitted init_state evs ->
   let s := fst (run init_state evs) in
   active s = true ->
-  (enabled s AttemptOk = true \/ enabled s Lost = true \/ enabled s TimerExpired = true) /\
+  (enabled s (AttemptOk []) = true \/ enabled s Lost = true \/ enabled s TimerExpired = true) /\
   (forall z, enabled s (AttemptFail z) = true ->
      exists d, snd (step s (AttemptFail z)) = [OSetTimer d] /\ timer (fst (step s (AttemptFail z))) = Some d
                /\ active (fst (step s (AttemptFail z))) = true) /\
@@ -83,6 +83,19 @@ Theorem C16_keeps_retrying : forall evs,
      /\ active (fst (step s TimerExpired)) = true).
 Proof. exact keeps_retrying. Qed.
 Print Assumptions C16_keeps_retrying.
+
+(* operations issued from INSIDE the user callback (stopConnecting / reset called re-entrantly while _connected is
+   still on the stack) behave exactly as if they had been issued right after _connected returned -- the callback is
+   the last thing _connected does -- and the callback only runs if the Reconnector was active.  Every theorem of
+   this file quantifies over histories with such re-entrant calls (AttemptOk u). *)
+Theorem C16_reentrant_callback : forall s u,
+  step s (AttemptOk u) =
+  if active s
+  then (let (s1, o1) := step s (AttemptOk []) in
+        let (s2, o2) := run s1 (map uop_event u) in (s2, o1 ++ o2))
+  else step s (AttemptOk []).
+Proof. exact ok_reentrant. Qed.
+Print Assumptions C16_reentrant_callback.
 
 (* "After stopConnecting the user callback is never invoked again and no timer or attempt is started, even if an
    attempt was in flight": for every history before the stop (including none: stopConnecting while still queued
